@@ -198,7 +198,7 @@ def _patch_cases(chk) -> list[dict]:
             for x in "nr":
                 cases.append({"runs": [run(ex, x)]})
     if chk.tier == "quick":
-        for _ in range(150):
+        for _ in range(100):
             cases.append({"runs": [run([rnd.choice(KINDS) for _ in range(3)], rnd.choice("nr"))]})
     # re-entry after every way of leaving: all pairs (first: ≤1 extra × exit) then (second: ≤1 extra)
     singles = [()] + [(k,) for k in KINDS]
@@ -211,7 +211,7 @@ def _patch_cases(chk) -> list[dict]:
         for n in ([], [(2, 0)], [(9, 0)], [(3, 0)]):
             cases.append({"runs": [run(a, "n", nested=n), run(a, "n")]})
     # random histories
-    for _ in range(250 if chk.tier == "quick" else 3000):
+    for _ in range(180 if chk.tier == "quick" else 3000):
         runs = []
         for _ in range(rnd.randint(2, 4)):
             ex = [rnd.choice(KINDS) for _ in range(rnd.choice([0, 1, 1, 2, 2, 3]))]
@@ -423,14 +423,14 @@ def _cli_cases(chk):
         pure += list(itertools.product(ALPHA, repeat=L))
     for L in (1, 2):
         pure += list(itertools.product(ALPHA + ADVERSARIAL, repeat=L))
-    for _ in range(4000 if chk.tier == "quick" else 40000):
+    for _ in range(2000 if chk.tier == "quick" else 40000):
         pure.append(tuple(rnd.choice(ALPHA + ADVERSARIAL) for _ in range(rnd.randint(3, 7))))
-    pure += _grammar_sentences(rnd, 2000 if chk.tier == "quick" else 20000)
+    pure += _grammar_sentences(rnd, 1000 if chk.tier == "quick" else 20000)
     e2e = []
     n_e2e = 3 if chk.tier == "quick" else 4
     for L in range(0, n_e2e + 1):
         e2e += list(itertools.product(ALPHA, repeat=L))
-    e2e += _grammar_sentences(rnd, 400 if chk.tier == "quick" else 4000)
+    e2e += _grammar_sentences(rnd, 250 if chk.tier == "quick" else 4000)
     # outside the alphabet: abbreviated / odd option spellings in front of runnable targets (argparse sets module *and* path for some)
     odd = ["--mod=m", "--m=x", "--modul", "--db=p", "--d", "-d=p", "-m=m", "--db_path=", "--module=", "-", "-h", "--help", "-hdp", "--=x"]
     for o in odd:
